@@ -118,6 +118,7 @@ pub struct Machine<'a> {
     printed_var: bool,
     cur_expr_uses_var: bool,
     call_depth: usize,
+    consts: BTreeMap<String, Val>,
 }
 
 pub fn default_val(sty: &STy, prog: &Program) -> Val {
@@ -166,6 +167,7 @@ impl<'a> Machine<'a> {
             printed_var: false,
             cur_expr_uses_var: false,
             call_depth: 0,
+            consts: BTreeMap::new(),
         }
     }
 
@@ -319,54 +321,6 @@ impl<'a> Machine<'a> {
 
     // ------------------------------------------------------------ expressions
 
-    pub fn static_ty(&self, e: &Expr) -> Ty {
-        match e {
-            Expr::Lit(Lit::Whole(v)) => {
-                if *v <= 32767 {
-                    Ty::Int
-                } else {
-                    Ty::Long
-                }
-            }
-            Expr::Lit(Lit::Frac { double, .. }) => {
-                if *double {
-                    Ty::Double
-                } else {
-                    Ty::Single
-                }
-            }
-            Expr::Lit(Lit::WholeDouble(_)) => Ty::Double,
-            Expr::Lit(Lit::Str(_)) => Ty::Str,
-            Expr::Load(l) => l.ety(),
-            Expr::Const(_, t) => *t,
-            Expr::Un(_, x) => self.static_ty(x),
-            Expr::Paren(x) => self.static_ty(x),
-            Expr::Bin(op, a, b) => {
-                let ta = self.static_ty(a);
-                let tb = self.static_ty(b);
-                match op {
-                    BinOp::Add | BinOp::Sub | BinOp::Mul => {
-                        if ta == Ty::Str {
-                            Ty::Str
-                        } else {
-                            wider(ta, tb)
-                        }
-                    }
-                    BinOp::Div => {
-                        if ta == Ty::Double || tb == Ty::Double {
-                            Ty::Double
-                        } else {
-                            Ty::Single
-                        }
-                    }
-                    _ => Ty::Int,
-                }
-            }
-            Expr::Call(p, _) => self.prog.procs[*p].ret.expect("function"),
-            Expr::BuiltIn { ty, .. } => *ty,
-        }
-    }
-
     /// Would the implementation's static typing give this expression a whole-number type?
     /// (It types `/` like `+ - *`: the wider operand type. Used only to attribute failures to the known finding.)
     fn impl_types_whole(&self, e: &Expr) -> bool {
@@ -511,7 +465,10 @@ impl<'a> Machine<'a> {
         match e {
             Expr::Lit(l) => self.lit(l),
             Expr::Load(l) => self.load(l, path),
-            Expr::Const(..) => panic!("refsem: constants are substituted before evaluation"),
+            Expr::Const(n, _) => match self.consts.get(&n.to_uppercase()) {
+                Some(v) => Ok(v.clone()),
+                None => undet("constant used before its definition executed"),
+            },
             Expr::Paren(x) => self.eval(x, path),
             Expr::Un(UnOp::Neg, x) => {
                 let v = self.eval(x, path)?;
@@ -534,12 +491,9 @@ impl<'a> Machine<'a> {
                 let vb = self.eval(b, path)?;
                 let r = self.binop(*op, va, vb, path)?;
                 if *op == BinOp::Div && self.impl_types_whole(a) && self.impl_types_whole(b) {
-                    if let Val::N(n) = &r {
-                        if !n.is_whole() {
-                            // the implementation types this quotient INTEGER/LONG (no conversion is emitted on stores)
-                            self.triggers.insert("div-of-whole-operands-typed-whole");
-                        }
-                    }
+                    // the implementation types this quotient INTEGER/LONG: no conversion (and no range check)
+                    // is emitted where it, or arithmetic built on it, is stored
+                    self.triggers.insert("div-of-whole-operands-typed-whole");
                 }
                 Ok(r)
             }
@@ -671,6 +625,9 @@ impl<'a> Machine<'a> {
             if let Some(res) = co {
                 if let Cell::Scalar(v) = &frame.cells[pr.params[k].var] {
                     let v = v.clone();
+                    if self.read_resolved(res) != v {
+                        self.feat("by-ref-changed");
+                    }
                     self.write_resolved(res, v);
                 }
             }
@@ -1064,7 +1021,20 @@ impl<'a> Machine<'a> {
                 }
                 Ok(())
             }
-            Stmt::Data(_) | Stmt::Label(_) | Stmt::Const(..) => Ok(()),
+            Stmt::Data(_) | Stmt::Label(_) => Ok(()),
+            Stmt::Const(n, e) => {
+                let v = self.eval(e, path)?;
+                // a suffix on the constant's name converts the value
+                let v = match (n.chars().last(), v) {
+                    (Some('%'), Val::N(x)) => Val::N(x.convert(Ty::Int).map_err(|_| Stop::Undet("constant conversion".into()))?),
+                    (Some('&'), Val::N(x)) => Val::N(x.convert(Ty::Long).map_err(|_| Stop::Undet("constant conversion".into()))?),
+                    (Some('!'), Val::N(x)) => Val::N(x.convert(Ty::Single).map_err(|_| Stop::Undet("constant conversion".into()))?),
+                    (Some('#'), Val::N(x)) => Val::N(x.convert(Ty::Double).map_err(|_| Stop::Undet("constant conversion".into()))?),
+                    (_, v) => v,
+                };
+                self.consts.insert(n.to_uppercase(), v);
+                Ok(())
+            }
             Stmt::Goto(l) => {
                 self.feat("goto");
                 Err(Stop::Goto(l.clone()))
@@ -1193,6 +1163,55 @@ impl<'a> Machine<'a> {
         self.run_stmts(body, k, &move |i| path_proc(p, i))
     }
 }
+
+pub fn static_ty(prog: &Program, e: &Expr) -> Ty {
+    match e {
+        Expr::Lit(Lit::Whole(v)) => {
+            if *v <= 32767 {
+                Ty::Int
+            } else {
+                Ty::Long
+            }
+        }
+        Expr::Lit(Lit::Frac { double, .. }) => {
+            if *double {
+                Ty::Double
+            } else {
+                Ty::Single
+            }
+        }
+        Expr::Lit(Lit::WholeDouble(_)) => Ty::Double,
+        Expr::Lit(Lit::Str(_)) => Ty::Str,
+        Expr::Load(l) => l.ety(),
+        Expr::Const(_, t) => *t,
+        Expr::Un(_, x) => static_ty(prog, x),
+        Expr::Paren(x) => static_ty(prog, x),
+        Expr::Bin(op, a, b) => {
+            let ta = static_ty(prog, a);
+            let tb = static_ty(prog, b);
+            match op {
+                BinOp::Add | BinOp::Sub | BinOp::Mul => {
+                    if ta == Ty::Str {
+                        Ty::Str
+                    } else {
+                        wider(ta, tb)
+                    }
+                }
+                BinOp::Div => {
+                    if ta == Ty::Double || tb == Ty::Double {
+                        Ty::Double
+                    } else {
+                        Ty::Single
+                    }
+                }
+                _ => Ty::Int,
+            }
+        }
+        Expr::Call(p, _) => prog.procs[*p].ret.expect("function"),
+        Expr::BuiltIn { ty, .. } => *ty,
+    }
+}
+
 
 struct LValueResolved {
     fi: usize,
